@@ -669,6 +669,22 @@ func (env *CEnv) call(e *CExpr) Val {
 		// fixed(view): the view as a fixed-size array argument of a pure function
 		v := env.asView(env.eval(e.Args[0]), e)
 		return FXV{v}
+	case "called":
+		// called("pkg.F", k): the k-th call site of pkg.F (source order) has been executed on this path
+		if len(e.Args) != 2 || e.Args[0].Kind != "str" || e.Args[1].Kind != "num" {
+			fail("%s: called(\"pkg.Func\", k)", e.Pos)
+		}
+		key := fmt.Sprintf("%s#%s", e.Args[0].Str, e.Args[1].Num.String())
+		g, ok := c.ghosts[key]
+		if !ok {
+			fail("%s: called(%s) is only available in the exit / ensures / loop clauses of the function that makes the call", e.Pos, key)
+		}
+		s := env.state()
+		id, ok := s.vars[g]
+		if !ok {
+			fail("%s: called(%s): no such call site in the state", e.Pos, key)
+		}
+		return s.cells[id]
 	case "purefn":
 		// purefn("pkg.Func", "r0"|"w1", args...): the uninterpreted function that a `pure` contract attaches to
 		// result/assigned-region of that function, applied to these arguments (same flattening as at call sites)
